@@ -137,7 +137,7 @@ def majorant(prop, key, x0, g):
     extra = 1
     if name == "powi":
         n = abs(int(key.partition(":")[2]))
-        extra = 2 + math.log2(max(n, 1)) + n / 8
+        extra = 2 + math.log2(max(n, 1)) + (0 if abs(x0f) == 1.0 else n / 8)
     elif name == "powf":
         extra = 2
     return [v * extra for v in m]
